@@ -462,4 +462,69 @@ def rule_live(ctx):
     ctx.borrow(rule_fresh, {"C17.FRESH": "C07.LIVE"}, only=lambda fn: "mlsx" in fn or "build_list" in fn or "stat" in fn)
 
 
-RULES = [rule_fact, rule_keys, rule_fmt, rule_half, rule_all, rule_live]
+def rule_memstat(ctx):
+    p = ctx.p
+    ctx.rule("C07.MEMSTAT", "the in-memory backend's stat() puts each value into the like-named field of its Stats tuple (size = number of stored bytes, independent of any cursor; "
+                            "ctime/mtime from the node's ctime/mtime)")
+    mc = p.cls("MemoryPathIO")
+    fields = None
+    for n in mc.body:
+        if isinstance(n, ast.Assign) and any(isinstance(t, ast.Name) and t.id == "Stats" for t in n.targets) and isinstance(n.value, ast.Call) and last_attr(n.value.func) == "namedtuple" \
+                and len(n.value.args) >= 2:
+            f_ = n.value.args[1]
+            if isinstance(f_, (ast.Tuple, ast.List)) and all(isinstance(e, ast.Constant) for e in f_.elts):
+                fields = [e.value for e in f_.elts]
+            elif isinstance(f_, ast.Constant) and isinstance(f_.value, str):
+                fields = f_.value.replace(",", " ").split()
+    st = p.methods("MemoryPathIO").get("stat")
+    if fields is None or st is None:
+        raise AnalysisError("anchor=MemoryPathIO.Stats field list / MemoryPathIO.stat not found")
+    calls = [c for c in walk_no_nested(st) if isinstance(c, ast.Call) and last_attr(c.func) == "Stats"]
+    if len(calls) != 1:
+        raise Inconclusive(f"C07.MEMSTAT: {len(calls)} Stats(...) constructions in MemoryPathIO.stat")
+    c = calls[0]
+    given = {}
+    for i, a in enumerate(c.args):
+        if i < len(fields):
+            given[fields[i]] = a
+    for k in c.keywords:
+        if k.arg:
+            given[k.arg] = k.value
+    node_cls = p.classes.get("Node")
+    props = {n.name: n for n in (node_cls[0].body if node_cls else []) if isinstance(n, FuncT) and any(last_attr(d) in ("property", "cached_property") for d in n.decorator_list)}
+
+    def texts(e, depth=3):
+        """source texts of what an argument expression can be (locals and Node properties followed)"""
+        out = [src(e)]
+        if depth <= 0:
+            return out
+        if isinstance(e, ast.Name):
+            for k_, d_, x_ in local_defs(st, e.id):
+                if k_ == "assign" and isinstance(d_, ast.expr):
+                    out += texts(d_, depth - 1)
+                elif k_ == "unpack" and isinstance(x_, int):
+                    for alt in (value_alternatives(p, d_, st) or []):
+                        if isinstance(alt, (ast.Tuple, ast.List)) and len(alt.elts) > x_:
+                            out += texts(alt.elts[x_], depth - 1)
+        if isinstance(e, ast.Attribute) and e.attr in props:
+            for r in walk_no_nested(props[e.attr]):
+                if isinstance(r, ast.Return) and r.value is not None:
+                    out += texts(r.value, depth - 1)
+        if isinstance(e, ast.IfExp):
+            out += texts(e.body, depth - 1) + texts(e.orelse, depth - 1)
+        return out
+    want = {"st_ctime": ("ctime",), "st_mtime": ("mtime",), "st_size": ("getbuffer", "getvalue", "nbytes"), "st_mode": ("S_IF",)}
+    for f_, needles in want.items():
+        if f_ not in given:
+            ctx.fail("C07.MEMSTAT", c, f"Stats field {f_} is not filled", construct=f"memstat:{f_}:missing")
+            continue
+        ts = texts(given[f_])
+        ok = any(nd in t for t in ts for nd in needles)
+        other = [g for g in ("ctime", "mtime") if g not in needles and any(g in t for t in ts)]
+        cursor = any(x in t for t in ts for x in (".tell()", ".seek("))
+        ctx.ob("C07.MEMSTAT", given[f_], f"Stats.{f_} <- {src(given[f_])[:40]}", ok and not other and not cursor,
+               f"MemoryPathIO.stat fills {f_} from `{src(given[f_])[:40]}`" + (f" (that is the node's {other[0]})" if other else " (a cursor position, not the stored size)" if cursor else "")
+               + ": MLSD/MLST/LIST on the in-memory backend report a wrong " + {"st_size": "size", "st_mode": "type"}.get(f_, "time"), construct=f"memstat:{f_}")
+
+
+RULES = [rule_fact, rule_keys, rule_fmt, rule_half, rule_all, rule_live, rule_memstat]
